@@ -47,6 +47,7 @@ pub struct ServerState {
     /// C17: how the mock is currently configured, per app id
     pub mock_cfg: std::collections::BTreeMap<String, String>,
     pub mock_cfg_epoch: u32,
+    pub mock_versions: std::collections::BTreeMap<String, String>,
     pub mock_forced_etag: bool,
     pub mock_disable_updates: bool,
     /// (request body, key id, nonce) of the previous CUP exchange handled by the mock
@@ -200,7 +201,18 @@ fn gen_updatecheck_ok(w: &mut World, key: &str) -> Value {
     let nurls = w.draws.draw(&format!("{key}/nurls"), 4);
     if nurls > 0 {
         let urls: Vec<Value> =
-            (0..nurls).map(|i| json!({"codebase": format!("http://dl{i}.example.test/p/")})).collect();
+            (0..nurls)
+                .map(|i| {
+                    // codebases need not end in a slash: full URLs are plain concatenations
+                    let cb = match w.draws.draw(&format!("{key}/url{i}/form"), 5) {
+                        0 | 1 => format!("http://dl{i}.example.test/p/"),
+                        2 => format!("http://dl{i}.example.test/get?file="),
+                        3 => format!("http://dl{i}.example.test/noslash"),
+                        _ => format!("fuchsia-pkg://dl{i}.example.test//"),
+                    };
+                    json!({ "codebase": cb })
+                })
+                .collect();
         u.insert("urls".into(), json!({ "url": urls }));
     }
     let absent = w.profile.srv.manifest_absent_permille;
@@ -517,7 +529,11 @@ pub fn byzantine(doc: &mut Value, which: u64) -> Option<String> {
 }
 
 pub fn garbage_body(w: &mut World, key: &str) -> Vec<u8> {
-    match w.draws.draw(&format!("{key}/garbage.kind"), 8) {
+    match w.draws.draw(&format!("{key}/garbage.kind"), 12) {
+        8 => b")]}'".to_vec(),
+        9 => b")]}".to_vec(),
+        10 => b")]}'X{\"response\":{\"protocol\":\"3.0\",\"app\":[]}}".to_vec(),
+        11 => b")]}'\n)]}'\n{}".to_vec(),
         0 => vec![],
         1 => {
             let n = 1 + w.draws.draw(&format!("{key}/garbage.len"), 200) as usize;
@@ -711,7 +727,11 @@ pub fn deliver(w: &mut World, id: u64, label: &str) {
         }
         8 => {
             if !body.is_empty() {
-                let keep = w.draws.draw(&format!("{label}/trunc"), body.len() as u64) as usize;
+                let keep = if w.draws.draw(&format!("{label}/trunc.early"), 4) == 0 {
+                    (w.draws.draw(&format!("{label}/trunc"), 8) as usize).min(body.len() - 1)
+                } else {
+                    w.draws.draw(&format!("{label}/trunc"), body.len() as u64) as usize
+                };
                 body.truncate(keep);
                 grammatical = None;
                 tamper = format!("body_truncate@{keep}");
